@@ -58,10 +58,18 @@ def run(tier, seed):
                 "with the generations (value, timestamp, expiry) the application stored, metadata counters = "
                 "live totals; and every crash image's real recovery equals the abstract reader's prediction",
     }
+    # story: a fresh key is deleted while the write-behind worker has its first write in hand
+    import seqengine as _sq
+    _sv, _sn, _sst = _sq.run_stories(PROP, fxv, rd, "inflightstory", 2 if tier == "quick" else 10,
+                                     "the file holds a record for a key deleted before the acknowledged flush")
+    viol = viol + _sv
     return {"level": "translation_validation", "coverage": cov, "violations": viol,
             "assumptions": ["byte-level fidelity rests on the independent decoder (trusted base); a symmetric "
                             "change of the crate's encoder and decoder makes it classify writes as invalid"]}
 
 
 def replay(path):
+    import seqengine as _sq
+    if _sq.is_story(path):
+        return _sq.replay_story(PROP, path)
     return ce.replay(PROP, path, INV)
